@@ -640,6 +640,29 @@ def r_refmut(body):
         body = body[:mo.start()] + new + body[cb + 1:]
 
 
+def r_destructure(body):
+    """(A, B) = EXPR;   ->   { let destr_ = EXPR; A = destr_.0; B = destr_.1; }     (destructuring assignment to two plain variables; R-destructure)"""
+    log = []
+    while True:
+        m = code_mask(body)
+        mo = None
+        for x in re.finditer(r"(?m)^[ \t]*\(\s*(\w+)\s*,\s*(\w+)\s*\)\s*=(?!=)", body):
+            if m[x.end() - 1]:
+                mo = x
+                break
+        if mo is None:
+            return body, log
+        st = mo.start() + (len(mo.group(0)) - len(mo.group(0).lstrip()))
+        e = _stmt_end(body, m, st)
+        expr = body[mo.end():e].strip()
+        if not expr.endswith(";"):
+            raise Unsupported("R-destructure: statement end not found")
+        new = "{ let destr_ = %s A_ = destr_.0; B_ = destr_.1; }" % expr
+        new = new.replace("A_ =", mo.group(1) + " =").replace("B_ =", mo.group(2) + " =")
+        log.append(("R-destructure", norm_ws(body[st:mo.end()]) + " EXPR;", "{ let destr_ = EXPR; %s = destr_.0; %s = destr_.1; }" % (mo.group(1), mo.group(2))))
+        body = body[:st] + new + body[e:]
+
+
 def r_continue(body):
     """if C { continue; } REST  (statements of one loop body)  ->  if C { } else { REST }
     (definition of `continue` when it is the only statement of an `if` directly in the loop body; R-continue)"""
@@ -749,6 +772,40 @@ def r_iife(body):
             log.append(("R-iife", "(|| -> Result<_, E> { STMTS; Ok(X?) })().map_err(|e| e.annotate(..))?", "{ STMTS; X? }"))
             body = body[:mo.start()] + new + body[cb + 1 + vt.end():]
             continue
+        # general value form:  (|| -> Result<_, E> { Ok(X) })().map_err(|e| e.annotate(S))?   ->   (X)
+        # X may contain `?` and `return Err(..)`: both end the closure with an error that the trailing `?` returns at once
+        om = re.match(r"^Ok\s*\(", inner)
+        if vt and om and not re.search(r"\breturn\b(?!\s+Err\()", inner):
+            mi = code_mask(inner)
+            oc = match_close(inner, mi, om.end() - 1)
+            if oc == len(inner) - 1:
+                new = "(" + inner[om.end():oc].strip() + ")"
+                log.append(("R-iife", "(|| -> Result<_, E> { Ok(X) })().map_err(|e| e.annotate(..))?", "(X)"))
+                body = body[:mo.start()] + new + body[cb + 1 + vt.end():]
+                continue
+        # return form:  (|| -> Result<_, E> { BODY })().map_err(|e| e.annotate(S))?  where BODY never falls through with a value but leaves
+        # by `return Ok(X);` in tail position of its block (next token `}`) or by `return Err(..)`:  ->  { BODY[return Ok(X); := X] }
+        if vt and re.search(r"\breturn\s+Ok\s*\(", inner):
+            mi = code_mask(inner)
+            out = []
+            pos_i = 0
+            ok = True
+            for x in re.finditer(r"\breturn\s+(Ok|Err)\s*\(", inner):
+                if not mi[x.start()] or x.group(1) == "Err":
+                    continue
+                oc = match_close(inner, mi, x.end() - 1)
+                tail = re.match(r"\s*;\s*\}", inner[oc + 1:])
+                val = inner[x.end():oc].strip()
+                if not tail or val == "()" or val == "":
+                    ok = False
+                    break
+                out.append(inner[pos_i:x.start()] + val)
+                pos_i = oc + 1 + inner[oc + 1:].index(";") + 1
+            if ok and not re.search(r"\breturn\b(?!\s+(Ok|Err)\s*\()", inner):
+                new = "{ " + "".join(out) + inner[pos_i:] + " }"
+                log.append(("R-iife", "(|| -> Result<_, E> { .. return Ok(X); .. })().map_err(|e| e.annotate(..))?", "{ .. X .. }"))
+                body = body[:mo.start()] + new + body[cb + 1 + vt.end():]
+                continue
         if not after or not im or ";" in inner:
             raise Unsupported("R-iife: only `(|| -> Result<_, E> { Ok(X?) })()`, the statement form ending in Ok(()) and the whole-body form are rewritten")
         new = "(" + im.group(1).strip() + ")"
@@ -1060,6 +1117,10 @@ def _read_rel(udir, rel):
 def lookup_contract(unit_name, fid):
     u = load_unit(unit_name)
     for f in u.get("fn", []):
+        if "from_unit" in f:
+            if f.get("from_id") == fid:
+                return lookup_contract(f["from_unit"], fid)
+            continue
         if fn_id(f) == fid:
             return f
     raise AnchorLost("contract %s not found in unit %s" % (fid, unit_name))
@@ -1277,6 +1338,9 @@ def emit_fn(f, udir, unit_props, recs, log_global):
             log += l
         if "refmut" in rewrites:
             body, l = r_refmut(body)
+            log += l
+        if "destructure" in rewrites:
+            body, l = r_destructure(body)
             log += l
         if "continue" in rewrites:
             body, l = r_continue(body)
